@@ -201,6 +201,17 @@ pub mod mpsc {
             self.0.get().cap
         }
     }
+    /// `async fn recv` of tokio as a hand-written future (see `SendFut`).
+    pub struct RecvFut<'a, T> {
+        c: &'a Arc<Shared<T>>,
+    }
+    impl<T> Unpin for RecvFut<'_, T> {}
+    impl<T> std::future::Future for RecvFut<'_, T> {
+        type Output = Option<T>;
+        fn poll(self: std::pin::Pin<&mut Self>, cx: &mut Context<'_>) -> Poll<Option<T>> {
+            poll_recv(self.c.get(), cx)
+        }
+    }
     pub struct SendFut<'a, T> {
         tx: &'a Sender<T>,
         v: Option<T>,
@@ -262,8 +273,8 @@ pub mod mpsc {
         pub fn poll_recv(&mut self, cx: &mut Context<'_>) -> Poll<Option<T>> {
             poll_recv(self.0.get(), cx)
         }
-        pub async fn recv(&mut self) -> Option<T> {
-            core::future::poll_fn(|cx| self.poll_recv(cx)).await
+        pub fn recv(&mut self) -> RecvFut<'_, T> {
+            RecvFut { c: &self.0 }
         }
         pub fn try_recv(&mut self) -> Result<T, TryRecvError> {
             try_recv(self.0.get())
@@ -289,8 +300,8 @@ pub mod mpsc {
         pub fn poll_recv(&mut self, cx: &mut Context<'_>) -> Poll<Option<T>> {
             poll_recv(self.0.get(), cx)
         }
-        pub async fn recv(&mut self) -> Option<T> {
-            core::future::poll_fn(|cx| self.poll_recv(cx)).await
+        pub fn recv(&mut self) -> RecvFut<'_, T> {
+            RecvFut { c: &self.0 }
         }
         pub fn try_recv(&mut self) -> Result<T, TryRecvError> {
             try_recv(self.0.get())
